@@ -265,6 +265,10 @@ func c16Programs(quick bool) []c16Case {
 		"print \"before end\\n\";\n__END__\ntext after ' \\ end",
 		"exit 0;",
 		"exit 255;",
+		/* Lines ending in blanks inside literals and here-docs. */
+		"print \"one \ntwo\t\nthree\\n\";",
+		"print <<'EOT';\ntrailing blanks  \n\ttab line\t\nEOT",
+		"print length('a \n b'), \"\\n\";   ",
 	}
 	leads := []string{"", "#!/usr/bin/perl\n", "#\n", "# text comment\n", "#!/usr/bin/perl\n#\n# TABDOC: prog does things\n# second ' comment\n", "# comment\n\n# not lead any more\n"}
 	var progs []string
@@ -273,7 +277,7 @@ func c16Programs(quick bool) []c16Case {
 		for _, b := range stmts {
 			progs = append(progs, a+"\n"+b+"\n")
 			if !quick {
-				for _, c := range stmts[:9] {
+				for _, c := range append(append([]string{}, stmts[:9]...), stmts[11:]...) {
 					progs = append(progs, a+"\n"+b+"\n"+c+"\n")
 				}
 			}
@@ -312,7 +316,7 @@ func c16Programs(quick bool) []c16Case {
 
 func c16(r *ev.Result, tier string) {
 	quick := isQuick(tier)
-	r.Rule = "programs: one per byte value 1..255 in single- and double-quoted literals; 135 consecutive lengths x 2 shapes; every sequence of <=2 (thorough 3) statements over an 11-statement grammar " +
+	r.Rule = "programs: one per byte value 1..255 in single- and double-quoted literals; 135 consecutive lengths x 2 shapes; every sequence of <=2 (thorough 3) statements over a 14-statement grammar " +
 		"(literals, @ARGV, STDIN, sub, here-doc, block, exit 0/3/255, die, __END__) x 6 leading-comment shapes x 2 argument/stdin settings; 12 argument vectors x 3 programs; sizes 1..64 KiB; empty and whitespace-only; " +
 		"each under dash and bash. Oracles: dynamic (stdout, status / die message vs perl on the script) and static (reference uudecoding of the function body vs the statement's program text). distinct = distinct (script, args, stdin, shell)."
 	cases := c16Programs(quick)
